@@ -277,6 +277,34 @@ def run(tier, replay=None):
                 "REPL's way" if x["doout"] else "file mode", x["meta"], got, want, "" if r.get("kind") == "ok" else " (the loop ended with %s %s)" % (r.get("kind"), r.get("msg"))),
                 {"loop_session": {"lines": x["lines"][:12], "doout": x["doout"]}, "kind": r.get("kind")})
     ck.part("sessions through the read-eval loop after failed / refused / unparsable statements", sessions=len(lsess))
+    # ---- a statement that is refused as too large is refused as a whole: code compiled for its earlier parts (an operand, an earlier
+    # argument or element, an earlier statement of the same block) is not run, now or with a later statement
+    ones = ", ".join("1" for _ in range(40000))
+    names = ", ".join("hv" for _ in range(40000))        # every mention of a global takes a data-segment entry
+    big = {"call with 40000 arguments as right operand": 'r = toa(write("B")) + g(' + ones + ")", "call with 40000 arguments as later argument": 'r = g(write("B"), g(' + ones + "))",
+           "array literal of 40000 constants after an effectful element": 'r = [write("B"), ' + names + "]", "block whose second statement is too large": '{\nwrite("B")\nr = [' + names + "]\n}",
+           "if whose body is too large": 'if write("B") == nope {\n[' + names + "]\n}", "function call inside a too large array": "r = [" + names + ', write("B")]',
+           "loop whose body is too large": 'for i <- fromto(0, 2) {\nwrite("B")\nr = [' + names + "]\n}"}
+    rsess = []
+    for bname, stmt in big.items():
+        for doout in (True, False):
+            rsess.append({"id": len(rsess) + 1, "lines": ["g = (a) -> a", 'write("A")'] + stmt.split("\n") + ['write("C")', 'write("D")'], "doout": doout, "stdin": [], "meta": bname})
+    rres = vlib.run_loop([{k: v for k, v in x.items() if k != "meta"} for x in rsess], timeout=1800)
+    import re as _re
+    for x in rsess:
+        r = rres.get(x["id"]) or {}
+        ck.cov["evaluations"] += 1
+        ck.cov["traces_validated_against_impl"] += 1
+        out = r.get("out") or ""
+        seq = _re.findall(r"A|B|COMPILE ERROR|D|(?<![A-Z])C(?![A-Z])", out.replace("COMPILE ERROR", "#CE#").replace("RUNTIME ERROR", "#RE#").replace("#CE#", "COMPILE ERROR")) if False else \
+            [t for t in _re.findall(r"COMPILE ERROR|RUNTIME ERROR|[ABCD]", _re.sub(r"program too large[^\n]*", "", out)) if t != "RUNTIME ERROR" or True]
+        want = ["A", "COMPILE ERROR", "C", "D"]
+        if "Parser:" in out or "Lexer:" in out:
+            raise vlib.Infra("a generated oversized statement does not parse: " + x["meta"])
+        if r.get("kind") != "ok" or seq != want:
+            ck.violation("a statement refused as too large (%s, %s): the session prints %s, expected %s%s" % (x["meta"], "REPL's way" if x["doout"] else "file mode", seq[:12], want,
+                         "" if r.get("kind") == "ok" else " (the loop ended with %s %s)" % (r.get("kind"), r.get("msg"))), {"loop_session": {"lines": [l[:200] for l in x["lines"]], "doout": x["doout"], "refused": x["meta"]}, "kind": r.get("kind")})
+    ck.part("statements refused as too large after part of them was compiled", sessions=len(rsess))
     ck.cov["exhaustive"] = True
     ck.cov["rule"] = ("vectors: opcodes x selector x 8 kinds x addresses around 0, +-2^15, +-2^16 x a second operand in another field; function values at the field boundaries; "
                       "non-trivial = address within 3 of a field boundary or a function value.  Scripts: n global assignments / a function with n locals / a function and an if whose bodies "
